@@ -72,3 +72,13 @@ CASES += [
     {"name": "rank not restored on loading", "kind": "mutant", "rule": "C18-I", "edits": [
         (D, "        if (\"ndim\" in mfile) and (int(mfile[\"ndim\"][0,0]) == 1):\n            _data = _data.reshape(-1)\n", "", 1)]},
 ]
+
+_MD = "quantarhei/core/matrixdata.py"
+CASES += [
+    {"name": "binary import maps the file writable (seeded change of round 6)", "kind": "mutant", "rule": "C18-K", "edits": [
+        (_MD, "        self.data = numpy.load(filename)\n", "        self.data = numpy.load(filename, mmap_mode=\"r+\")\n", 1)]},
+    {"name": "function import maps the file read-only", "kind": "mutant", "rule": "C18-K", "edits": [
+        ("quantarhei/core/datasaveable.py", "        _data = numpy.load(filename)\n", "        _data = numpy.load(filename, \"r\")\n", 1)]},
+    {"name": "binary import copies out of a read-only map", "kind": "twin", "edits": [
+        (_MD, "        self.data = numpy.load(filename)\n", "        self.data = numpy.array(numpy.load(filename, mmap_mode=\"r\"))\n", 1)]},
+]
